@@ -1523,7 +1523,7 @@ func c06AzECI(r *fw.Rec, lo, hi, step int) {
 // ---------------------------------------------------------------------------
 
 func c06(c *fw.Ctx) {
-	c.Rule("19 reader configurations (QR, Data Matrix, Aztec, QR multi reader through Decode and DecodeMultiple, EAN-13, EAN-8, UPC-A, UPC-E, multi-format UPC/EAN with and without POSSIBLE_FORMATS, Code 39 x {check, extended}, Code 93, Code 128, ITF, Codabar, RSS-14), each on seeded images through BOTH the hybrid and the global-histogram binariser (a quarter of them handed over as packed-RGB or planar-YUV luminance sources, which cannot be rotated): valid symbols of the reader's symbology (library writers, qrref/dmref/azref/onedref, an RSS-14 encoder) unmutated in a scanner-friendly rendering, or mutated at module level (flips, row/column deletion and duplication, crops through finder/guards, pasted noise, truncation, mirroring/inversion, combinations) and rendered with scale 1-4, quiet zone 0-10, arbitrary grey levels incl. low contrast, grey ramps, pixel noise and flips, alpha (NRGBA constant / noisy / symbol carried by alpha), RGBA tints, Gray16, Paletted, sub-images with a non-zero origin, canvases of 39/40/41 pixels and up to 800 pixels, one image in five turned by an arbitrary angle / sheared / scaled by a real factor; every second case keeps one reader instance for all its images; symbols of other symbologies; synthetic images (noise, constant, 1x1..3x3, stripes, checkerboards, finder look-alikes, a few bars and dots - the latter also in bulk under PURE_BARCODE for the 2-D readers); hint maps over all twelve decode hints with well-typed values. Every RowDecoder on rows (random runs of length 1..400, symbol rows clean / with odd margins / mutated / ending mid-symbol, rows ending at every pixel of a symbol's last 14 modules with the row length 0/1/31 modulo 32, every row of length 1..12). The three raw decoders on valid, mutated, arbitrary, tiny and non-square matrices (Aztec: all 36 sizes, matching and non-matching matrix sizes and data-block counts, plus every size x the boundary data-block counts a mode message can announce). The Reed-Solomon decoder on codewords plus multiples of arbitrary subsets of the generator's factors (chosen syndromes vanish, far beyond the capacity). A valid QR symbol of every (version, level) through the raw decoder. The three bit-stream parsers on random bytes/bits, reference-encoded streams cut after every bit (byte for Data Matrix), hostile segment sequences, every alphanumeric text of up to five characters over {A, 1, %} after FNC1 in first / second position, every QR mode nibble x version class, every ECI designator 0..999999 (QR: every byte form; Aztec: FLG(n) digits), every Data Matrix stream of up to two codewords (thorough: three after each latch), every Aztec bit string up to 14 (thorough: 18) bits. Structured-append QR symbol sets (2..4 members built by qrref, byte/alphanumeric/numeric/kanji data, optional ECI, complete and incomplete) side by side through DecodeMultiple and single members through QRCodeReader. Three QR entry points on images tiled with finder patterns of growing side 40..520 with the CPU time of each call measured. Per call: recover(), CPU/heap budget, exactly one of result/error, and for the image-level readers an error of the NotFound/Checksum/Format kinds. distinct = distinct (target, input description, hints)")
+	c.Rule("19 reader configurations (QR, Data Matrix, Aztec, QR multi reader through Decode and DecodeMultiple, EAN-13, EAN-8, UPC-A, UPC-E, multi-format UPC/EAN with and without POSSIBLE_FORMATS, Code 39 x {check, extended}, Code 93, Code 128, ITF, Codabar, RSS-14), each on seeded images through BOTH the hybrid and the global-histogram binariser (a quarter of them handed over as packed-RGB or planar-YUV luminance sources, which cannot be rotated): valid symbols of the reader's symbology (library writers, qrref/dmref/azref/onedref, an RSS-14 encoder) unmutated in a scanner-friendly rendering, or mutated at module level (flips, row/column deletion and duplication, crops through finder/guards, pasted noise, truncation, mirroring/inversion, combinations) and rendered with scale 1-4, quiet zone 0-10, arbitrary grey levels incl. low contrast, grey ramps, pixel noise and flips, alpha (NRGBA constant / noisy / symbol carried by alpha), RGBA tints, Gray16, Paletted, sub-images with a non-zero origin, canvases of 39/40/41 pixels and up to 800 pixels, one image in five turned by an arbitrary angle / sheared / scaled by a real factor; every second case keeps one reader instance for all its images; symbols of other symbologies; synthetic images (noise, constant, 1x1..3x3, stripes, checkerboards, finder look-alikes, a few bars and dots - the latter also in bulk under PURE_BARCODE for the 2-D readers); hint maps over all twelve decode hints with well-typed values. Every RowDecoder on rows (random runs of length 1..400, symbol rows clean / with odd margins / mutated / ending mid-symbol, rows ending at every pixel of a symbol's last 14 modules with the row length 0/1/31 modulo 32, every row of length 1..12). The three raw decoders on valid, mutated, arbitrary, tiny and non-square matrices (Aztec: all 36 sizes, matching and non-matching matrix sizes and data-block counts, plus every size x the boundary data-block counts a mode message can announce). The Reed-Solomon decoder on codewords plus multiples of arbitrary subsets of the generator's factors (chosen syndromes vanish, far beyond the capacity). A valid QR symbol of every (version, level) through the raw decoder, and symbols of versions 7..40 whose version-information blocks carry the valid word of another version. The three bit-stream parsers on random bytes/bits, reference-encoded streams cut after every bit (byte for Data Matrix), hostile segment sequences, every alphanumeric text of up to five characters over {A, 1, %} after FNC1 in first / second position, every QR mode nibble x version class, every ECI designator 0..999999 (QR: every byte form; Aztec: FLG(n) digits), every Data Matrix stream of up to two codewords (thorough: three after each latch), every Aztec bit string up to 14 (thorough: 18) bits. Structured-append QR symbol sets (2..4 members built by qrref, byte/alphanumeric/numeric/kanji data, optional ECI, complete and incomplete) side by side through DecodeMultiple and single members through QRCodeReader. Three QR entry points on images tiled with finder patterns of growing side 40..520 with the CPU time of each call measured. Per call: recover(), CPU/heap budget, exactly one of result/error, and for the image-level readers an error of the NotFound/Checksum/Format kinds. distinct = distinct (target, input description, hints)")
 	c.Assume("hint values have the Go types the readers assert (flag hints: any value incl. nil, as documented; CHARACTER_SET: string or encoding.Encoding; []gozxing.BarcodeFormat; []int; gozxing.ResultPointCallback incl. a nil one); images are at least 1x1, rows at least 1 long; Aztec detector results name 1..32 layers (compact 1..4) and at least one data block")
 	c.Assume("budget: the framework's 20 CPU-s / 1.5 GiB per case; in the tiled-finder-pattern cases one call needing more than 2 CPU-s on an image of at most 520x520 pixels is charged (signature <target>:budget:tiled-finder-patterns) because the following sizes of the escalation exceed the case budget (measured: DecodeMultiple 200x200 = 50 CPU-s)")
 	c.Assume("DESIGN C06 don't-care: DecodeMultiple returning an empty non-nil slice with nil error; raw decoders, row decoders and parsers may return any non-nil error (kind tallied, not charged); results are not checked for content")
@@ -1663,6 +1663,11 @@ func c06(c *fw.Ctx) {
 		c.Run(fmt.Sprintf("qrall/%d", v), func(r *fw.Rec) { c06QRAllConfigs(r, v) })
 	}
 	c.Floor("qr (version, level) pairs through the raw decoder", 150)
+	for v := 7; v <= 40; v++ {
+		v := v
+		c.Run(fmt.Sprintf("qrforeign/%d", v), func(r *fw.Rec) { c06QRForeignVersionWord(r, v) })
+	}
+	c.Floor("qr symbols with a foreign version word", 400)
 	c.Run("qr-fnc1-percent", func(r *fw.Rec) { c06QRFNC1Percent(r) })
 	c.Floor("qr alphanumeric segments with percent signs after FNC1", 9000)
 	bitCases := c.Pick(200, 6000)
@@ -1879,4 +1884,59 @@ func c06QRAllConfigs(r *fw.Rec, v int) {
 		r.Tally("qr (version, level) pairs through the raw decoder")
 	}
 	r.Nontrivial(fmt.Sprintf("qrall/%d", v))
+}
+
+// c06QRForeignVersionWord: a valid symbol of version v >= 7 whose version-information blocks
+// (one or both) are overprinted with the valid word of ANOTHER version: metadata that
+// contradicts the geometry.
+func c06QRForeignVersionWord(r *fw.Rec, v int) {
+	rng := r.Rng
+	l := qrAllLevels[rng.Intn(4)]
+	n := qrLenIn(rng, v, l, qrref.Byte)
+	if n == 0 {
+		return
+	}
+	_, segs, _ := qrPayload(rng, qrref.Byte, n)
+	data, ok := qrref.DataCodewordsFor(v, l, segs)
+	if !ok {
+		return
+	}
+	base := qrref.BuildMatrix(v, l, rng.Intn(8), data)
+	c1, c2 := qrref.VersionBitPositions(len(base))
+	for _, w := range []int{7, 8, v - 1, v + 1, 40, 7 + rng.Intn(34)} {
+		if w < 7 || w > 40 || w == v {
+			continue
+		}
+		word := qrref.VersionWord(w)
+		for which := 1; which <= 3; which++ {
+			m := copyBools(base)
+			for i := 0; i < 18; i++ {
+				bit := word>>uint(i)&1 == 1
+				if which&1 != 0 {
+					m[c1[i][1]][c1[i][0]] = bit
+				}
+				if which&2 != 0 {
+					m[c2[i][1]][c2[i][0]] = bit
+				}
+			}
+			var res interface{}
+			var err error
+			target := "qrcode/decoder.Decode"
+			msg, stack, panicked := fw.Guard(func() {
+				dr, e := qrdec.NewDecoder().Decode(c06BitMatrix(m), nil)
+				err = e
+				if dr != nil {
+					res = dr
+				}
+			})
+			data2 := func() map[string]interface{} {
+				return map[string]interface{}{"version": v, "level": qrLevelName[l], "version_word_of": w, "blocks_overprinted": which, "matrix": c06MatrixText(m)}
+			}
+			if !c06Judge(r, target, fmt.Sprintf("%s(version %d symbol, version block(s) %d carrying the word of version %d)", target, v, which, w), res != nil, err, msg, stack, panicked, false, data2) {
+				return
+			}
+			r.Tally("qr symbols with a foreign version word")
+		}
+	}
+	r.Nontrivial(fmt.Sprintf("qrforeign/%d", v))
 }
